@@ -538,12 +538,8 @@ def check_lazy_across_layers(repo, rep):
     """R05f: the agreed lazy set is established once for all layers."""
     mod = repo.module(RUNNER)
     fi = mod.func('choose_overload')
-    var = None
-    for x in model.walk_shallow(fi.node):
-        if isinstance(x, ast.Compare) and len(x.ops) == 1 and isinstance(
-                x.ops[0], (ast.NotEq, ast.Eq)) and isinstance(
-                x.left, ast.Name) and 'lazy' in x.left.id:
-            var = x.left.id
+    from sa.rules import c11
+    var, _ = c11.lazy_agreement_vars(fi)
     if var is None:
         rep.ob('R05f', fi.key + '/lazy-agreement', False,
                'choose_overload no longer compares the candidates\' lazy '
@@ -573,6 +569,84 @@ def check_lazy_across_layers(repo, rep):
                var, '; '.join(model.norm(s) for s in bad[:2])),
            loc=mod.loc(bad[0]) if bad else mod.loc(fi.node),
            construct=model.norm(bad[0]) if bad else '')
+
+
+def check_lazy_agreement_symmetric(repo, rep, rule='R05f'):
+    """Whenever an agreed lazy set exists and a candidate's set differs
+    from it, the ambiguity error is raised -- whatever else is true of the
+    two sets.  (An extra conjunct such as "and the candidate's set is
+    non-empty" makes the verdict depend on which candidate came first.)"""
+    from sa.rules import c11
+    mod = repo.module(RUNNER)
+    fi = mod.func('choose_overload')
+    agreed, cand = c11.lazy_agreement_vars(fi)
+    if agreed is None:
+        return
+    cmp_nodes = [n for n in model.walk_shallow(fi.node)
+                 if isinstance(n, ast.Compare) and len(n.ops) == 1 and
+                 isinstance(n.ops[0], (ast.NotEq, ast.Eq)) and
+                 {model.norm(n.left), model.norm(n.comparators[0])} ==
+                 {agreed, cand}]
+
+    def oracle(e):
+        if isinstance(e, ast.Compare) and len(e.ops) == 1:
+            names = {model.norm(e.left), model.norm(e.comparators[0])}
+            if names == {agreed, cand}:
+                if isinstance(e.ops[0], ast.NotEq):
+                    return True
+                if isinstance(e.ops[0], ast.Eq):
+                    return False
+            if model.norm(e.left) == agreed and isinstance(
+                    e.comparators[0], ast.Constant) and \
+                    e.comparators[0].value is None:
+                if isinstance(e.ops[0], ast.Is):
+                    return False
+                if isinstance(e.ops[0], ast.IsNot):
+                    return True
+        if isinstance(e, ast.Name) and e.id == agreed:
+            return None      # an agreed set may be empty: truthiness open
+        return None
+    # the statements that raise the ambiguity error
+    raisers = []
+    for c in model.calls_in(fi.node, shallow=True):
+        if isinstance(c.func, ast.Name):
+            h = mod.functions.get(fi.qualname + '.' + c.func.id)
+            if h is not None and any(
+                    cn.startswith('Ambiguous')
+                    for f2, st, cn in resolution_raises(repo, mod)
+                    if f2 is h):
+                raisers.append(c)
+    for st in model.walk_shallow(fi.node):
+        if isinstance(st, ast.Raise) and 'Ambiguous' in model.norm(st):
+            raisers.append(st)
+    ok = False
+    why = 'no ambiguity error is tied to the comparison'
+    for r in raisers:
+        gs = norm.guards(r, fi.node)
+        if not any(any(x is c or model.norm(x) == model.norm(c)
+                       for x in ast.walk(e)) for e, p in gs
+                   for c in cmp_nodes):
+            continue
+        good, first = True, None
+        for e, pol in gs:
+            if not ({x.id for x in ast.walk(e) if isinstance(x, ast.Name)}
+                    & {agreed, cand}):
+                continue    # whether this candidate is considered at all
+            v = norm.eval3(e, oracle)
+            if v is None or v != pol:
+                good, first = False, (e, pol, v)
+                break
+        if good:
+            ok = True
+        else:
+            why = 'whether the ambiguity error is raised for differing ' \
+                  'lazy sets also depends on `%s`' % model.norm(first[0])
+    rep.ob(rule, fi.key + '/lazy-agreement-is-symmetric', ok,
+           'two candidates whose lazy argument sets differ must always be '
+           'reported as ambiguous: %s -- the verdict then depends on '
+           'which candidate the layer enumerated first' % why,
+           loc=mod.loc(cmp_nodes[0]) if cmp_nodes else mod.loc(fi.node),
+           construct=model.norm(cmp_nodes[0]) if cmp_nodes else '')
 
 
 def run(repo, rep):
@@ -620,10 +694,14 @@ def run(repo, rep):
     n2 = check_type_checks(repo, rep)
     n3 = check_first_layer_wins(repo, rep)
     check_lazy_across_layers(repo, rep)
+    check_lazy_agreement_symmetric(repo, rep)
     from sa.rules import c11, c12, c17
     c11.check_r11a(repo, rep)
     c11.check_lazy_keys(repo, rep)
     c12.check_kind_predicate(repo, rep)
+    rep.rule('R12f', 'see C12: clone() copies parameter definitions, so the '
+             'keyword names candidates are filtered by are per context')
+    c12.check_clone_copies_parameters(repo, rep)
     c17.check_collect(repo, rep, repo.module('yaql.language.contexts'))
     rep.count(resolution_raise_sites=n1, type_check_obligations=n2,
               layer_loops=n3)
